@@ -188,11 +188,11 @@ func writeHeaderValueBlock(w io.Writer, h http.Header) (n int, err error) {
 	}
 	n += 2
 	for name, values := range h {
+		name = strings.ToLower(name)
 		if err = binary.Write(w, binary.BigEndian, uint32(len(name))); err != nil {
 			return
 		}
 		n += 2
-		name = strings.ToLower(name)
 		if _, err = io.WriteString(w, name); err != nil {
 			return
 		}
